@@ -84,10 +84,24 @@ func c20Names(c *Ctx) {
 		}
 		// extension appends
 		unc, comp := optionEdges(fn)
-		if len(unc) == 0 {
+		// the extension may be chosen first (a variable or a small helper) and appended once
+		selectedVar := false
+		instrs(fn, func(_ *ssa.BasicBlock, _ int, ins ssa.Instruction) {
+			if bo, ok := ins.(*ssa.BinOp); ok && bo.Op == token.ADD && ins.Parent() == fn {
+				if _, isConst := bo.Y.(*ssa.Const); !isConst && bo.Y.Type().String() == "string" {
+					if ok, _ := extSelectedByOption(bo.Y, compExt, uncExt); ok {
+						selectedVar = true
+					}
+				}
+			}
+		})
+		if len(unc) == 0 && !selectedVar {
 			bad = append(bad, "the extension does not depend on the Uncompressed option")
 		}
 		nComp := 0
+		if selectedVar {
+			nComp = 1
+		}
 		instrs(fn, func(b *ssa.BasicBlock, _ int, ins ssa.Instruction) {
 			bo, ok := ins.(*ssa.BinOp)
 			if !ok || bo.Op != token.ADD {
